@@ -344,7 +344,7 @@ def tasks(tier):
                         search_timeout_ms=120000))
     gcfgs = [dict(c02.CTRL_BASE, G=24), dict(c02.CTRL_CONFIGS_QUICK[1], G=30), dict(c02.CTRL_CONFIGS_QUICK[2], G=24)]
     if tier != "quick":
-        gcfgs += [dict(c02.CTRL_CONFIGS_THOROUGH[4], G=40), dict(c02.CTRL_CONFIGS_THOROUGH[5], G=30)]
+        gcfgs += [dict(c02.CTRL_CONFIGS_THOROUGH[4], G=40), dict(c02.CTRL_CONFIGS_THOROUGH[5], G=36)]   # (G=30 before the tRAS fix: the grant now also waits for tRAS)
     for cfg in gcfgs:
         out.append(dict(fn="grant_contract", cfg=cfg, modes=["inductive", "response"], weight=30, timeout_ms=900000))
     out.append(dict(kind="custom", fn="deadline_lemma", cfg={}))
